@@ -547,8 +547,9 @@ def run(chk, replay=None):
     chk.coverage['translator'] = {'status': 'ok' if not info['unparsed'] else 'partial', 'rules': info['rules'],
                                   'params': info['params'], 'suffixes': info['suffixes'], 'unparsed': info['unparsed']}
     # ---- 2. proofs
-    broken = chk.lean(['Lcapy/Props/C06.lean'],
-                      helper_files=['Lcapy/Proofs/ParserLemmas.lean', 'Lcapy/Model/Parser.lean', 'Lcapy/Spec/Netlist.lean',
+    broken = chk.lean(['Lcapy/Props/C06.lean', 'Lcapy/Props/C06Line.lean'],
+                      helper_files=['Lcapy/Proofs/ParserLemmas.lean', 'Lcapy/Proofs/ParserRoundTrip.lean',
+                                    'Lcapy/Model/Parser.lean', 'Lcapy/Spec/Netlist.lean',
                                     'Lcapy/Spec/NetlistExec.lean', 'Lcapy/Driver/C06.lean', 'Lcapy/Generated/Grammar.lean'],
                       leanchecker=(chk.tier == 'thorough'))
     drv = chk.get_driver()
@@ -577,6 +578,7 @@ def run(chk, replay=None):
         chk.coverage['correspondence']['disagreements'] += 1
 
     ok_cache = {}
+    norm_cache = {}
 
     def disagree(what, text, lc, md):
         chk.coverage['correspondence']['disagreements'] += 1
@@ -655,6 +657,25 @@ def run(chk, replay=None):
                     if ok is None:
                         ok = ok_cache[a] = drv.ask1('c06.okvalue ' + enc(a)).split(' ')[0]
                     chk.count('theorem-hypothesis okValue[%s]' % origin, ok)
+        # ---------- is the case an instance of the line-level theorem (C06Line.line_roundtrip_full)?  The
+        # hypotheses `normalCpt` / `optsNormal` / `grammarWF` are evaluated by Lean on the parsed component.
+        inst = []
+        for r in t1:
+            if r.type == 'XX':
+                inst.append(None)
+                continue
+            rep_n = norm_cache.get(r.wire())
+            if rep_n is None:
+                rep_n = norm_cache[r.wire()] = drv.ask1('c06.normal ' + r.wire())
+            if rep_n == 'bad-op':
+                raise common.Infra('c06.normal bad-op on %r' % text)
+            f = rep_n.split(' ')
+            is_inst = f == ['true', 'true', 'true']
+            inst.append(is_inst)
+            chk.count('theorem-hypothesis normalCpt[%s]' % origin, f[0])
+            if f[0] == 'true':
+                chk.count('theorem-hypothesis optsNormal[%s]' % origin, f[1] if len(f) > 1 else '?')
+            chk.count('theorem-instance line_roundtrip_full', 'instance' if is_inst else 'outside-hypotheses')
         # ---------- real print (through a real Circuit when it can be built)
         c1 = None
         try:
@@ -730,6 +751,11 @@ def run(chk, replay=None):
             raise common.Infra('c06.spec bad-op on %r' % text)
         if verdict != 'ok':
             state['cex'] += 1
+            if inst and all(x is not False for x in inst) and len(lines) == len(t1):
+                # every component is an instance of the proved line-level theorem, yet the real code fails:
+                # the model cannot be the code (the correspondence above must have disagreed as well)
+                chk.count('theorem-instance line_roundtrip_full', 'instance-but-real-code-fails')
+                disagree('theorem-instance-fails-on-real-code', text, verdict, 'line_roundtrip_full applies')
             cause = classify_cause(t1o, t2o, p1, verdict)
             key.update({'clause': verdict, 'cause': cause})
             if cause != 'other':
@@ -769,6 +795,9 @@ def run(chk, replay=None):
                                         'meta': meta, 'spec': 'component values equal after the round trip'},
                                        'component %s denotes a different value after the round trip' % e1.name)
                     return 'violation'
+        for x in inst:
+            if x:
+                chk.count('theorem-instance line_roundtrip_full', 'instance-and-real-code-agrees')
         chk.count('outcome', 'roundtrip-ok')
         return 'ok'
 
